@@ -5,3 +5,5 @@ import Proofs.C16
 #print axioms C16.widths_fit_prefix_counterexample
 #print axioms C16.keyheader_partition
 #print axioms C16.keyheader_level_cover
+#print axioms C16.columns_align
+#print axioms C16.no_trailing_blanks_partial
